@@ -189,3 +189,125 @@ def launch(item):
         except ValueError:
             pass
     return out
+
+
+# ---------------------------------------------------------------------------------------------- two task processes on one job directory
+def child_pause(script, k, wfd):
+    """Like child_main without signal, but the process stops itself (SIGSTOP) at the k-th traced line event."""
+    import atexit
+    import runpy
+    count = [0]
+
+    def local(frame, event, arg):
+        if event == "line":
+            count[0] += 1
+            if count[0] == k:
+                try:
+                    os.write(wfd, (json.dumps({"paused_at": (os.path.basename(frame.f_code.co_filename), frame.f_lineno, frame.f_code.co_name)}) + "\n").encode())
+                except OSError:
+                    pass
+                os.kill(os.getpid(), signal.SIGSTOP)
+        return local
+
+    def tracer(frame, event, arg):
+        fn = frame.f_code.co_filename
+        if fn.endswith(TRACED) or fn == script:
+            return local
+        return None
+
+    code = 0
+    sys.argv = [script]
+    devnull = os.open(os.devnull, os.O_WRONLY)
+    os.dup2(devnull, 1)
+    os.dup2(devnull, 2)
+    signal.signal(signal.SIGTERM, signal.SIG_DFL)
+    signal.signal(signal.SIGINT, signal.default_int_handler)
+    atexit._clear()
+    if k:
+        sys.settrace(tracer)
+    try:
+        runpy.run_path(script, run_name="__main__")
+    except SystemExit as e:
+        code = e.code if isinstance(e.code, int) else (0 if e.code is None else 1)
+    except BaseException:  # noqa
+        code = 1
+    finally:
+        sys.settrace(None)
+    try:
+        atexit._run_exitfuncs()
+    except SystemExit as e:
+        code = e.code if isinstance(e.code, int) else code
+    except BaseException:  # noqa
+        pass
+    os._exit(code if isinstance(code, int) else 1)
+
+
+def launch_pair(item):
+    """Process A runs the job script and stops itself at its k-th line event; process B is then started on the same job
+    directory and runs freely (it finishes, or waits for the run lock); A is resumed.  Observed: the body log."""
+    import time
+    info = make_job(item["variant"])
+    restore(info, item["state"])
+    r, w = os.pipe()
+    a = os.fork()
+    if a == 0:
+        os.close(r)
+        try:
+            child_pause(info["script"], item["k"], w)
+        finally:
+            os._exit(99)
+    os.close(w)
+    out = {"a_exit": None, "b_exit": None, "hang": False}
+    _, st = os.waitpid(a, os.WUNTRACED)
+    a_done = not os.WIFSTOPPED(st)
+    if a_done:
+        out["a_exit"] = os.waitstatus_to_exitcode(st)
+    b = os.fork()
+    if b == 0:
+        try:
+            child_pause(info["script"], 0, w if False else os.open(os.devnull, os.O_WRONLY))
+        finally:
+            os._exit(99)
+    t0 = time.time()
+    b_done = False
+    while time.time() - t0 < item.get("settle", 0.3):
+        pid, st = os.waitpid(b, os.WNOHANG)
+        if pid:
+            b_done = True
+            out["b_exit"] = os.waitstatus_to_exitcode(st)
+            break
+        time.sleep(0.01)
+    out["b_finished_before_resume"] = b_done
+    out["log_at_resume"] = (Path(info["dir"]) / "exec.log").read_text().split() if (Path(info["dir"]) / "exec.log").exists() else []
+    if not a_done:
+        os.kill(a, signal.SIGCONT)
+    deadline = time.time() + 20
+    for name, pid, done in (("a_exit", a, a_done), ("b_exit", b, b_done)):
+        while not done:
+            p, st = os.waitpid(pid, os.WNOHANG)
+            if p:
+                out[name] = os.waitstatus_to_exitcode(st)
+                done = True
+            elif time.time() > deadline:
+                out["hang"] = True
+                os.kill(pid, signal.SIGKILL)
+                os.waitpid(pid, 0)
+                done = True
+            else:
+                time.sleep(0.01)
+    chunks = []
+    while True:
+        bts = os.read(r, 65536)
+        if not bts:
+            break
+        chunks.append(bts)
+    os.close(r)
+    for line in b"".join(chunks).decode().splitlines():
+        try:
+            out.update(json.loads(line))
+        except ValueError:
+            pass
+    d = Path(info["dir"])
+    out["log"] = (d / "exec.log").read_text().split() if (d / "exec.log").exists() else []
+    out["state"] = observe(info)
+    return out
